@@ -16,7 +16,7 @@ CHECKS = {
  "C02": ("interprocedural AST-field consumption analysis on SSA (per node value, summaries to a fixpoint), slice-arity bounds from must-facts, path-enumerated token dispatch (tables in any shape), enumeration of spelling comparisons against resolved recognisers found by role, control-effect facts, multi-result agreement of binding constructions",
          "Decides for every input program at once the translator-side conditions of reject-or-translate: every meaning-carrying field of every inspected go/ast node is read by a guard or a translation, constant indices cover their slices, token dispatch has no silent default, meaning is not chosen by spelling where a predeclared name is meant, and return/break/continue are translated only where their control effect is available (with a sound must-end analysis). Level 'other'.",
          "That an accepted construct's translation includes Go's behaviour is C01's semantic core. Known findings: type-assertion type ignored, package/type look-alikes by spelling (one entry per class and literal).", "DESIGN.md §4 C02"),
- "C03": ("path-enumerated case tables of the sync translators compared with the reference library mapping; recogniser constant sets; dispatch-order facts; spawn-shape facts",
+ "C03": ("path-enumerated case tables of the sync translators (switches or constant package-level maps) compared with the reference library mapping; positive abstract paths of the recognisers; dispatch-order facts; spawn-shape facts on the abstract paths of the go-statement translation",
          "Decides the translator-side necessary conditions for concurrent programs: every sync method/function is mapped to the GooseLang library function of the reference table and nothing else is, the type recognisers accept exactly *sync.Mutex/Cond/WaitGroup and are consulted before the generic method path, go statements are translated only for argument-less function literals with no control effect. Level 'other'.",
          "Interleavings of the emitted program under GooseLang's scheduler are not decided (scheduler and libraries are not in the repository).", "DESIGN.md §4 C03"),
  "C04": ("name-provenance classification at global-reference sinks paired with addDep on all paths (SSA), registration dominance at every spec-to-declaration producer call, CFG facts of the emission function (found by role), path-sensitive ok-discipline of (info, ok) lookups",
@@ -25,10 +25,10 @@ CHECKS = {
  "C05": ("per-path delimiter balance of every printer function, needs_paren classification of every emitter, taint from Go text to Coq string/comment sinks with value-specific guard facts, control-dependence of configuration flags",
          "Decides by structural induction over the printer (every emitter balanced given balanced holes, every emitter honours/passes needs_paren or is closed/atomic) and by taint analysis that source text reaches Coq strings only under a no-quote fact for that value and comments only through the two-pass sanitiser, that flags cannot influence bodies and that no declaration text is used as a term. Level 'other'.",
          "Coq's actual parser is not run; its documented lexical rules are used. Three known findings (for-init and non-tail block scope leak, quotes inside comments).", "DESIGN.md §4 C05"),
- "C06": ("map-range idiom classification, global-store scan, goroutine capture analysis, ambient-source who-may-call, with a positive-control package",
+ "C06": ("map-range idiom classification, global-store and mutating-method scan, goroutine capture analysis (own-slot writes, per-iteration captured index), ambient-source and channel-receive who-may-call, with a positive-control package",
          "Decides the structural causes of non-determinism and cross-package influence for every run and schedule: no order-sensitive map iteration, package-level state immutable after init, workers write only their own slot and follow the WaitGroup protocol, no clock/random/env sources, sort before emit, the command writes a package's file depending only on that package's error. Level 'other'.",
          "Races inside go/packages/go/types are not decided (documented concurrency-safe).", "DESIGN.md §4 C06"),
- "C07": ("call-graph recover discipline + audited enumeration of every potential run-time panic site with automatic discharge by must-facts (length bounds, nil tests, type tests, caller-established facts) and invariant tables",
+ "C07": ("call-graph recover discipline + audited enumeration of every potential run-time panic site (raw panics, single-result assertions, constant and variable indices, slice bounds, partial helpers, partial accessors of go/constant, nil-returning accessors of go/types, nil packages, nil-able AST fields, binding arity) with automatic discharge by must-facts (length bounds, nil/kind/type tests, caller-established facts), structural invariants and construct-keyed audit tables",
          "Decides for all type-correct inputs that a structured error is always recovered, and that every raw panic, single-result type assertion, constant slice index, partial-helper call, nil go/types package and documented-nil go/ast field in the translator and printer is guarded or justified by a named go/ast / go/types / Go-typing invariant; new unaudited sites fail. Also categories, positions and error aggregation. Level 'other'.",
          "Termination and panics inside dependencies are not decided; the invariant tables are reviewed by hand and listed in the evidence.", "DESIGN.md §4 C07"),
  "C08": ("table extraction from init SSA, callback-shape facts (packages.Visit pre/post), path enumeration of header/footer, structural keys of the emitted Require and file paths on abstract paths (every occurrence of the import path lies inside the one path mapping)",
@@ -37,7 +37,7 @@ CHECKS = {
  "C11": ("path enumeration with branch facts (error/count result discipline), must-pass-through (fsync), unit-aware open-path rule",
          "Decides for every path through every system call of the file disk that a failure cannot reach a normal return (error tested or returned; pread/pwrite count proven equal to the block size), that Barrier/Close pass through fsync/close of the disk's descriptor on every returning path, and that a successful open either resizes a regular file to numBlocks*BlockSize bytes or proved that size in bytes, with O_CREAT|O_RDWR and without O_TRUNC. Level 'other'.",
          "Durability on hardware and crash recovery are not decided; documented syscall semantics trusted.", "DESIGN.md §4 C11"),
- "C12": ("alias/provenance flow on SSA, must-facts (create-only-when-absent), sibling shape",
+ "C12": ("alias/provenance flow on SSA, must-facts (create-only-when-absent), sibling shape, origin analysis of the listing result",
          "Decides necessary structural clauses of the reference model for all histories: descriptors come from a fresh allocation, caller/returned byte slices never alias stored contents, Create updates nothing when the name exists, ReadAt returns buf[:n] of a fresh buffer from the requested offset, Link shares the inode, Delete removes only the directory entry, wrappers forward, AtomicCreate installs exactly the data. Level 'other'.",
          "Equality with a reference model over all histories is not decided. One known finding (MemFs.Open shares the creator's descriptor).", "DESIGN.md §4 C12"),
  "C13": ("protocol-order dominance + path enumeration, write-all loop idiom, flag and path-provenance checks",
